@@ -107,10 +107,12 @@ class PeerScript:
     """on_send callback: re-assembles what the association sends and lets `responder(primitive)` return
     primitives to queue as the peer's replies (list of (context_id, primitive))."""
 
-    def __init__(self, assoc, responder):
+    def __init__(self, assoc, responder, wire=False):
+        """wire=True: replies are delivered as the peer's P-DATA through dimse.receive_primitive (what the DUL does) instead of
+        being put on the DIMSE message queue directly."""
         from pynetdicom.dimse_messages import DIMSEMessage
 
-        self.a, self.responder, self._M = assoc, responder, DIMSEMessage
+        self.a, self.responder, self._M, self.wire = assoc, responder, DIMSEMessage, wire
         self.m = DIMSEMessage()
         assoc.on_send = self
 
@@ -123,7 +125,10 @@ class PeerScript:
                 pr._context_id = self.m.context_id
                 self.m = self._M()
                 for cid, rsp in self.responder(pr) or []:
-                    self.a.dimse.msg_queue.put((cid, rsp))
+                    if self.wire:
+                        inject_message(self.a, rsp, cid)
+                    else:
+                        self.a.dimse.msg_queue.put((cid, rsp))
 
 
 def inject_message(assoc, primitive, context_id, max_pdu=16382):
